@@ -28,8 +28,135 @@ func Wait(c *sexp.S, out *Out) {
 		out.Put("%s", waitTiming(math.Float64frombits(c.List[4].Uint())))
 	case "shape":
 		out.Put("%s", waitShape(c.List[4].Atom, c.List[5].Int(), c.List[6].Atom == "err"))
+	case "abandon":
+		out.Put("%s", waitAbandon(c.List[4].Atom, c.List[5].Atom == "err", c.List[6].Atom == "err"))
 	default:
 		out.Put("BADKIND")
+	}
+}
+
+// waitAbandon: a command is pending, the runner is restored (which abandons that invocation), the abandoned invocation
+// completes afterwards, and the same command is executed again: the second invocation is a command of its own — Next
+// answers "waiting" while it runs and reports its result, not the abandoned one's.
+func waitAbandon(shape string, fails1, fails2 bool) string {
+	dr, err := ysgo.NewDialogueRunner(nil, "a", strings.NewReader("title: S\n---\nbefore\n<<work 7 x>>\nafter\n===\n"))
+	if err != nil {
+		return "ABANDON loaderr"
+	}
+	var calls int32
+	gates := []chan struct{}{make(chan struct{}), make(chan struct{})}
+	done := []chan struct{}{make(chan struct{}), make(chan struct{})}
+	outcome := func(k int) error {
+		if (k == 0 && fails1) || (k == 1 && fails2) {
+			return fmt.Errorf("work %d failed", k+1)
+		}
+		return nil
+	}
+	enter := func() int {
+		k := int(atomic.AddInt32(&calls, 1)) - 1
+		if k > 1 {
+			k = 1
+		}
+		return k
+	}
+	var regErr error
+	switch shape {
+	case "noret":
+		fails1, fails2 = false, false
+		regErr = dr.ConvertAndAddCommand("work", func(a int, s string) { k := enter(); <-gates[k]; close(done[k]) })
+	case "err":
+		regErr = dr.ConvertAndAddCommand("work", func(a int, s string) error { k := enter(); <-gates[k]; close(done[k]); return outcome(k) })
+	case "chan":
+		regErr = dr.ConvertAndAddCommand("work", func(a int, s string) chan error {
+			k := enter()
+			ch := make(chan error, 1)
+			go func() { <-gates[k]; ch <- outcome(k); close(done[k]) }()
+			return ch
+		})
+	case "raw":
+		dr.AddCommand("work", func(args []*variable.Value) <-chan error {
+			k := enter()
+			ch := make(chan error, 1)
+			go func() { <-gates[k]; ch <- outcome(k); close(done[k]) }()
+			return ch
+		})
+	default:
+		return "ABANDON badshape"
+	}
+	if regErr != nil {
+		return "ABANDON registration-refused"
+	}
+	snap := dr.Snapshot()
+	if el, err, _, p := timedNext(dr); p || err != nil || el == nil || el.Line.Text != "before" {
+		return "ABANDON bad-first-line"
+	}
+	for i := 0; i < 3; i++ {
+		if _, err, took, p := timedNext(dr); p || took > nextBudget || err != ysgo.ErrWaitingForCommandCompletion {
+			return "ABANDON first-invocation-not-pending"
+		}
+	}
+	if err := dr.RestoreAt(snap); err != nil {
+		return "ABANDON restore-refused"
+	}
+	close(gates[0])
+	<-done[0]
+	time.Sleep(20 * time.Millisecond) // the abandoned invocation has reported whatever it reports
+	if el, err, _, p := timedNext(dr); p || err != nil || el == nil || el.Line.Text != "before" {
+		return "ABANDON bad-first-line-after-restore"
+	}
+	// the second invocation starts now and stays blocked on its gate
+	for i := 0; i < 5; i++ {
+		el, err, took, p := timedNext(dr)
+		switch {
+		case p:
+			return "ABANDON panic"
+		case took > nextBudget:
+			return fmt.Sprintf("ABANDON next-blocked-for %v", took)
+		case err == ysgo.ErrWaitingForCommandCompletion:
+		case err != nil:
+			return "ABANDON error-reported-while-the-second-invocation-runs: " + err.Error()
+		default:
+			return fmt.Sprintf("ABANDON resumed-while-the-second-invocation-runs (element %v)", el != nil)
+		}
+		time.Sleep(2 * time.Millisecond)
+	}
+	if n := atomic.LoadInt32(&calls); n != 2 {
+		return fmt.Sprintf("ABANDON handler-invoked-%d-times", n)
+	}
+	close(gates[1])
+	start := time.Now()
+	errors := 0
+	for {
+		el, err, took, p := timedNext(dr)
+		switch {
+		case p:
+			return "ABANDON panic"
+		case took > nextBudget:
+			return fmt.Sprintf("ABANDON next-blocked-for %v", took)
+		case err == ysgo.ErrWaitingForCommandCompletion:
+			if time.Since(start) > 2*time.Second {
+				return "ABANDON never-completed"
+			}
+			time.Sleep(time.Millisecond)
+		case err != nil:
+			errors++
+			if errors > 1 || !strings.Contains(err.Error(), "work 2 failed") {
+				return "ABANDON wrong-error: " + err.Error()
+			}
+		case el != nil && el.Line != nil && el.Line.Text == "after":
+			if fails2 && errors != 1 {
+				return "ABANDON error-not-surfaced"
+			}
+			if !fails2 && errors != 0 {
+				return "ABANDON spurious-error"
+			}
+			if n := atomic.LoadInt32(&calls); n != 2 {
+				return fmt.Sprintf("ABANDON handler-invoked-%d-times", n)
+			}
+			return "ABANDON ok"
+		default:
+			return "ABANDON unexpected-element"
+		}
 	}
 }
 
